@@ -428,6 +428,8 @@ def _worker(argv):
             raise RuntimeError("born-non-strict bootstrap failed")
         cache: dict = {}
         for op in ops:
+            if len(cache) > 150:
+                cache.clear()       # (operations on one description are adjacent; bounded memory in long runs)
             out.append({"N": run_op(op, cache)})
     else:
         cache_s: dict = {}
@@ -435,6 +437,9 @@ def _worker(argv):
         cache_x: dict = {}      # one database object used under both modes (the usual life of a loaded database)
         loaded_strict: dict = {}
         for op in ops:
+            if len(cache_s) > 150 or len(cache_n) > 150 or len(cache_x) > 150:
+                # (operations on one description are adjacent; bounded memory in long runs)
+                cache_s.clear(); cache_n.clear(); cache_x.clear(); loaded_strict.clear()
             ex.strict_mode = True
             s1 = run_op(op, cache_s)
             ex.strict_mode = False
@@ -531,11 +536,22 @@ def shards(tier):
 
 
 def run_shard(spec, seed, tier):
+    # the thorough tier is a sequence of quick-sized rounds with derived seeds: operations, worker caches and
+    # outcomes of one round are dropped before the next one starts (bounded memory)
+    res = core.ShardResult()
+    rounds = 1 if tier == "quick" else 12
+    seen: set = set()
+    for r in range(rounds):
+        _run_round(res, seen, seed + 7919 * r, 250)
+        if res.failures:
+            break
+    return res
+
+
+def _run_round(res, seen, seed, n):
     import hypothesis
     from hypothesis import given, strategies as st
-    res = core.ShardResult()
     kf = known.load(PROPERTY)
-    n = 250 if tier == "quick" else 3000
     ops: list = []
 
     @st.composite
@@ -583,7 +599,6 @@ def run_shard(spec, seed, tier):
         ops.extend(core.plain(o))
     collect2()
     flip, born = run_workers(ops)
-    seen = set()
     for op, fo, bo in zip(ops, flip, born):
         cls = {"op:" + op["op"]}
         if str(op.get("label", "")).startswith("bad-desc:"):
@@ -612,8 +627,7 @@ def run_shard(spec, seed, tier):
             elif f.bucket() not in seen:
                 seen.add(f.bucket())
                 res.failures.append(f)
-    res.stages["operations"] = len(ops)
-    return res
+    res.stages["operations"] = res.stages.get("operations", 0) + len(ops)
 
 
 if __name__ == "__main__":
